@@ -1,7 +1,7 @@
 (* C09 property theorems.  Only statements closed by [exact], each followed by Print Assumptions.
    [dinfer] is the C06 inference model over the digit tables regenerated from /repo; [natsort_less] the natsort model:
    these are the instances C09/Harness.v runs on the implementation's output. *)
-From Miller Require Import Base.Record C06.Model C06.Harness C11.Model C11.Proofs C09.Model C09.Proofs C09.Harness.
+From Miller Require Import Base.Record C06.Model C06.Harness C11.Model C11.Proofs C09.Model C09.Proofs C09.FloatMono C09.Harness.
 From Coq Require Import Permutation.
 Open Scope Z_scope.
 
@@ -18,14 +18,27 @@ Proof. exact (sort_spec_permutation dinfer natsort_less). Qed.
 Print Assumptions C09_sorted_output_is_permutation.
 
 (* records with identical key texts stay together in input order, key-less records last in input order
-   (by the shape of [sort_output]), no group head strictly smaller than an earlier one under the flag chain *)
+   (by the shape of [sort_output]), no group head strictly smaller than an earlier one under the flag chain,
+   and -- the sort being stable -- groups whose heads compare equal are in first-appearance order *)
 Theorem C09_sort_spec_unfolded : forall ks inp out,
   sort_spec dinfer natsort_less ks inp out <->
   exists gs, Permutation gs (dkeys (sort_keyf ks) inp)
     /\ out = flat_map (fun g => group_of (sort_keyf ks) g inp) gs ++ filter (fun r => negb (has_key (sort_keyf ks) r)) inp
-    /\ ForallOrdPairs (fun g h => chain_cmp dinfer natsort_less (map snd ks) (head_vals ks inp h) (head_vals ks inp g) <? 0 = false) gs.
+    /\ ForallOrdPairs (fun g h => chain_cmp dinfer natsort_less (map snd ks) (head_vals ks inp h) (head_vals ks inp g) <? 0 = false) gs
+    /\ ForallOrdPairs (fun g h => chain_cmp dinfer natsort_less (map snd ks) (head_vals ks inp g) (head_vals ks inp h) = 0 ->
+                                  (index_of g (dkeys (sort_keyf ks) inp) < index_of h (dkeys (sort_keyf ks) inp))%nat) gs.
 Proof. exact (fun ks inp out => conj (fun H => H) (fun H => H)). Qed.
 Print Assumptions C09_sort_spec_unfolded.
+
+(* "The sort is stable": groups that compare equal under the whole flag chain come out in the order in which they were
+   first encountered (the code after the repair 4e85fa106: sort.SliceStable) *)
+Theorem C09_sort_is_stable : forall ks inp out,
+  sort_spec dinfer natsort_less ks inp out ->
+  exists gs, out = sort_output ks inp gs
+    /\ ForallOrdPairs (fun g h => chain_cmp dinfer natsort_less (map snd ks) (head_vals ks inp g) (head_vals ks inp h) = 0 ->
+                                  (index_of g (dkeys (sort_keyf ks) inp) < index_of h (dkeys (sort_keyf ks) inp))%nat) gs.
+Proof. exact (sort_spec_stable dinfer natsort_less). Qed.
+Print Assumptions C09_sort_is_stable.
 
 Theorem C09_same_key_text_keeps_input_order : forall ks inp out,
   sort_spec dinfer natsort_less ks inp out ->
@@ -41,6 +54,17 @@ Theorem C09_check_array_sort_correct : forall name f inp out,
 Proof. exact (check_array_sort_spec dinfer natsort_less). Qed.
 Print Assumptions C09_check_array_sort_correct.
 
+(* ---- top -n k -f x [-g ..] -a [--min]: the checker run on its output means: groups in first-appearance order; of each
+   group a sub-multiset of min(k, size) records, best first, and no record left out is strictly better than a chosen one *)
+Theorem C09_check_top_sound : forall domax k x fs inp out,
+  check_top dinfer domax k x fs inp out = true ->
+  let keyf := top_keyf x fs in
+  out = flat_map (fun g => group_of keyf g out) (dkeys keyf inp)
+  /\ (forall r, In r out -> has_key keyf r = true)
+  /\ (forall g, In g (dkeys keyf inp) -> top_group_spec dinfer domax k x (group_of keyf g inp) (group_of keyf g out)).
+Proof. exact (check_top_sound dinfer). Qed.
+Print Assumptions C09_check_top_sound.
+
 (* ---- comparators: total preorders *)
 Theorem C09_lexical_total_preorder :
   total_preorder_on (fun _ => True) (flag_cmp dinfer natsort_less Ff) /\ total_preorder_on (fun _ => True) (flag_cmp dinfer natsort_less Fr).
@@ -52,16 +76,20 @@ Theorem C09_casefold_total_preorder :
 Proof. exact (casefold_total_preorder dinfer natsort_less). Qed.
 Print Assumptions C09_casefold_total_preorder.
 
-(* numeric: on every set of values whose integers convert to binary64 strictly monotonically (true of |n| <= 2^53,
-   where the conversion is exact; that arithmetic fact about float_of_int is a hypothesis here, not proved) *)
-Theorem C09_numeric_total_preorder_partial : forall exact : Z -> Prop,
-  (forall x y, exact x -> exact y -> x < y -> fkey (float_of_int x) < fkey (float_of_int y)) ->
-  total_preorder_on (num_dom dinfer exact) (flag_cmp dinfer natsort_less Fnf)
-  /\ total_preorder_on (num_dom dinfer exact) (flag_cmp dinfer natsort_less Fnr).
-Proof. exact (numeric_total_preorder dinfer natsort_less). Qed.
-Print Assumptions C09_numeric_total_preorder_partial.
+(* numeric: on all values whose integer readings lie in -2^53 .. 2^53 (exactly the integers every one of which is
+   representable as a double) together with every float reading, empty and string: conversion of those integers to
+   binary64 is exact and strictly monotone (C09/FloatMono.v, proved about the C06 model's float_of_int) *)
+Definition int53 (n : Z) : Prop := - 2 ^ 53 <= n <= 2 ^ 53.
+Theorem C09_numeric_total_preorder :
+  total_preorder_on (num_dom dinfer int53) (flag_cmp dinfer natsort_less Fnf)
+  /\ total_preorder_on (num_dom dinfer int53) (flag_cmp dinfer natsort_less Fnr).
+Proof.
+  exact (numeric_total_preorder dinfer natsort_less int53
+           (fun x y Hx Hy Hxy => float_of_int_mono x y (proj1 Hx) (proj2 Hy) Hxy)).
+Qed.
+Print Assumptions C09_numeric_total_preorder.
 
-(* ... and the hypothesis cannot be dropped: beyond 2^53 the comparator is not transitive on ties *)
+(* ... and the bound cannot be dropped: just beyond 2^53 the comparator is not transitive on ties *)
 Theorem C09_numeric_total_preorder_all_int64_refuted : exists a b c,
   flag_cmp dinfer natsort_less Fnf a b = 0 /\ flag_cmp dinfer natsort_less Fnf b c = 0 /\ flag_cmp dinfer natsort_less Fnf a c <> 0.
 Proof.
@@ -70,13 +98,15 @@ Qed.
 Print Assumptions C09_numeric_total_preorder_all_int64_refuted.
 
 (* several keys in precedence order: the chain of lexical / case-folded / numeric comparators is a total preorder on
-   value tuples (same premise on integers as above; natural-order keys excluded: natsort has no such law) *)
-Theorem C09_key_chain_total_preorder_partial : forall (exact : Z -> Prop) fl,
-  (forall x y, exact x -> exact y -> x < y -> fkey (float_of_int x) < fkey (float_of_int y)) ->
+   value tuples over the same domain (natural-order keys excluded: natsort has no such law) *)
+Theorem C09_key_chain_total_preorder : forall fl,
   (forall f, In f fl -> In f [Ff; Fr; Fc; Fcr; Fnf; Fnr]) ->
-  total_preorder_on (fun l => List.length l = List.length fl /\ Forall (num_dom dinfer exact) l) (chain_cmp dinfer natsort_less fl).
-Proof. exact (fun exact fl Hm => std_chain_preorder dinfer natsort_less exact Hm fl). Qed.
-Print Assumptions C09_key_chain_total_preorder_partial.
+  total_preorder_on (fun l => List.length l = List.length fl /\ Forall (num_dom dinfer int53) l) (chain_cmp dinfer natsort_less fl).
+Proof.
+  exact (std_chain_preorder dinfer natsort_less int53
+           (fun x y Hx Hy Hxy => float_of_int_mono x y (proj1 Hx) (proj2 Hy) Hxy)).
+Qed.
+Print Assumptions C09_key_chain_total_preorder.
 
 (* flag mapping: every descending flag is its ascending comparator with the arguments exchanged, including the
    deliberately inverted natural pair (-t selects NaturalDescendingComparator, which sorts ascending) *)
@@ -113,6 +143,8 @@ Example C09_nonvacuous :
   check_sort dinfer natsort_less [(B "x", Fnf)] ex_in ex_out = true
   /\ check_sort dinfer natsort_less [(B "x", Fnf)] ex_in (rev ex_out) = false
   /\ check_sort dinfer natsort_less [(B "x", Fnr)] ex_in ex_out = false
-  /\ num_dom dinfer (fun n => -100 <= n <= 100) (B "10") /\ num_dom dinfer (fun n => -100 <= n <= 100) (B "abc")
+  /\ check_sort dinfer natsort_less [(B "x", Fnf)] [[(B "x", B "1.0")]; [(B "x", B "1")]] [[(B "x", B "1.0")]; [(B "x", B "1")]] = true
+  /\ check_sort dinfer natsort_less [(B "x", Fnf)] [[(B "x", B "1.0")]; [(B "x", B "1")]] [[(B "x", B "1")]; [(B "x", B "1.0")]] = false
+  /\ num_dom dinfer int53 (B "9007199254740992") /\ num_dom dinfer int53 (B "-12") /\ num_dom dinfer int53 (B "abc") /\ num_dom dinfer int53 (B "1e300")
   /\ flag_cmp dinfer natsort_less Fc (B "Pan") (B "pAN") = 0 /\ flag_cmp dinfer natsort_less Ft (B "a2") (B "a10") = -1.
 Proof. vm_compute. repeat split; try reflexivity; discriminate. Qed.
